@@ -502,3 +502,50 @@ V("C07", "shared-key", I,
 V("C07", "benign-reorder-terms", I,
   ("        delta_proc = (pt2.user - pt1.user) + (pt2.system - pt1.system)",
    "        delta_proc = (pt2.system + pt2.user) - (pt1.system + pt1.user)"), "silent")
+
+# ----------------------------------------------------------------- C08
+V("C08", "defect-F13-returns", L,
+  ("                    sin = int(line.split(b' ')[1]) * PAGESIZE", "                    sin = int(line.split(b' ')[1]) * 4 * 1024"),
+  "fires:C08.R6")
+V("C08", "used-omits-buffers", L,
+  ("    used = total - free - cached - buffers", "    used = total - free - cached"), "fires:C08.R2")
+V("C08", "used-fallback-wrong", L,
+  ("        used = total - free\n\n    # - starting", "        used = total - cached\n\n    # - starting"), "fires:C08.R2")
+V("C08", "cached-omits-sreclaimable", L,
+  ("        cached += mems.get(b\"SReclaimable:\", 0)  # since kernel 2.6.19\n", "        pass\n"),
+  "fires:C08.R1")
+V("C08", "shared-from-wrong-key", L,
+  ("        shared = mems[b'Shmem:']  # since kernel 2.6.32", "        shared = mems[b'ShmemHugePages:']  # since kernel 2.6.32"),
+  "fires:C08.R1")
+V("C08", "kb-not-scaled", L,
+  ("    with open_binary(f\"{get_procfs_path()}/meminfo\") as f:\n        for line in f:\n            fields = line.split()\n            mems[fields[0]] = int(fields[1]) * 1024\n\n    # /proc doc states",
+   "    with open_binary(f\"{get_procfs_path()}/meminfo\") as f:\n        for line in f:\n            fields = line.split()\n            mems[fields[0]] = int(fields[1]) * 1000\n\n    # /proc doc states"),
+  "fires:C08.R1")
+V("C08", "percent-of-used", L,
+  ("    percent = usage_percent((total - avail), total, round_=1)", "    percent = usage_percent(used, total, round_=1)"),
+  "fires:C08.R2")
+V("C08", "avail-zero-not-handled", L,
+  ("        if avail == 0:\n", "        if avail is None:\n"), "fires:C08.R3")
+V("C08", "avail-clamp-dropped", L,
+  ("    elif avail > total:\n", "    elif avail > total * 2:\n"), "fires:C08.R3")
+V("C08", "avail-negative-kept", L,
+  ("    if avail < 0:\n        avail = 0\n        missing_fields.append('available')\n    elif avail > total:",
+   "    if avail > total:"), "fires:C08.R3")
+V("C08", "active-missing-raises", L,
+  ("    try:\n        active = mems[b\"Active:\"]\n    except KeyError:\n        active = 0\n        missing_fields.append('active')",
+   "    active = mems[b\"Active:\"]"), "fires:C08.R4")
+V("C08", "missing-name-wrong", L,
+  ("        buffers = 0\n        missing_fields.append('buffers')", "        buffers = 0\n        missing_fields.append('cached')"),
+  "fires:C08.R4")
+V("C08", "watermark-not-pages", L,
+  ("    watermark_low *= PAGESIZE\n", "    watermark_low *= 1024\n"), "fires:C08.R5")
+V("C08", "pagecache-min-dropped", L,
+  ("    pagecache -= min(pagecache / 2, watermark_low)\n", ""), "fires:C08.R5")
+V("C08", "swap-used-wrong", L,
+  ("    used = total - free\n    percent = usage_percent(used, total, round_=1)\n    # get pgin/pgouts",
+   "    used = total\n    percent = usage_percent(used, total, round_=1)\n    # get pgin/pgouts"), "fires:C08.R2")
+V("C08", "swap-in-out-swapped", L,
+  ("                if line.startswith(b'pswpin'):\n                    sin =", "                if line.startswith(b'pswpout'):\n                    sin ="),
+  "fires:C08.R6")
+V("C08", "benign-reorder", L,
+  ("    used = total - free - cached - buffers", "    used = total - (free + buffers + cached)"), "silent")
